@@ -45,5 +45,30 @@ META["C07"] = dict(
     technique="Lean 4 proof over regenerated regex data + differential correspondence",
 )
 
+META["C01"] = dict(
+    text="Lean 4 invariant proof over an executable model of pubsub::Topic::poll, FanoutMany and StreamMap with scripted children: c01_exactly_once_in_order (for every history and every subscriber: got ++ buffered = accepted.drop regAt; evicted sinks got a prefix), c01_nothing_left_behind / c01_delivered_and_flushed (when a poll ends not blocked by a subscriber nothing accepted is undelivered or unflushed); induction over polls of any length, all scripts, all StreamMap starts; the hand model is tied to the code by replaying every scenario on the real Topic and comparing every child call",
+    design_ref="DESIGN.md section 6, C01",
+    note="trusts the mpsc / StreamMap / waker contracts as stated, the correspondence harness, and the Lean kernel",
+    technique="Lean 4 invariant proof over hand model + trace-level differential correspondence",
+)
+META["C08"] = dict(
+    text="Lean 4 theorems: FanoutMany keeps exactly the entries that did not answer Err and hands the item to every one of them (c08_fanout_*), a subscriber that never fails survives any poll (c08_healthy_subscriber_survives), survivors keep the exactly-once-in-order invariant whatever the others do (c08_survivors_unharmed); fault scripts at every (child, operation, position) are replayed on the real FanoutMany/Topic and compared with the model",
+    design_ref="DESIGN.md section 6, C08",
+    note="pub/sub half; request/reply half in the second part of Props/C08.lean when present",
+    technique="Lean 4 proof over hand model + fault-script differential correspondence",
+)
+META["C09"] = dict(
+    text="Lean 4 theorems: c09_pubsub_terminates (a poll needs at most work(s)+1 loop iterations, work = queued registrations + answers the publisher streams hold), c09_pubsub_channel_drained and c09_pubsub_no_unflushed_work (whenever it yields not blocked by a subscriber, the channel is empty and holds the waker and nothing is unwritten or unflushed), c09_pubsub_calm_never_blocked; the real Topic is driven by a wake-driven executor and compared with the model including skipped polls",
+    design_ref="DESIGN.md section 6, C09",
+    note="pub/sub half; request/reply half in the second part of Props/C09.lean when present",
+    technique="Lean 4 termination-bound and quiescence proofs + wake-driven differential correspondence",
+)
+META["C16"] = dict(
+    text="Lean 4 theorems: after close a poll from any state finishes or is blocked on a pending subscriber sink (c16_pubsub_closed_outcome), with subscribers able to accept data it finishes within work(s)+1 iterations (c16_pubsub_finishes), and at completion everything taken from a publisher is handed over and flushed (c16_pubsub_finishes_flushed); the real Topic's channel is closed in many states and compared with the model",
+    design_ref="DESIGN.md section 6, C16",
+    note="pub/sub half; request/reply half in the second part of Props/C16.lean when present",
+    technique="Lean 4 proof over hand model + differential correspondence",
+)
+
 _PENDING = "not built yet in this session; planned at proof level (DESIGN.md section 6) — will be claimed as soon as its first theorem and correspondence suite exist"
 NOT_APPLICABLE = {f"C{n:02d}": _PENDING for n in range(1, 18)}
